@@ -107,6 +107,10 @@ _cookie_translator: Final[typing.Dict[int, str]] = {
 }
 
 
+def _has_control_character(text: str) -> bool:
+    return any(c < " " or c == "\x7f" for c in text)
+
+
 class Cookie:
     def __init__(
         self,
@@ -121,7 +125,7 @@ class Cookie:
         samesite: Literal["strict", "lax", "none"] = "lax",
     ):
         for attribute in (domain, path):
-            if attribute and any(c in attribute for c in ";\r\n\0"):
+            if attribute and (";" in attribute or _has_control_character(attribute)):
                 raise ValueError(
                     "Cookie domain and path must not contain ';' or control characters."
                 )
@@ -589,9 +593,9 @@ class MutableHeaders(Headers, typing.MutableMapping[str, str]):
             self[key] = value  # the same check as for later mutations
 
     def __setitem__(self, key: str, value: str) -> None:
-        if "\n" in key or "\r" in key or "\0" in key:
+        if _has_control_character(key):
             raise ValueError("Header names must not contain control characters.")
-        if "\n" in value or "\r" in value or "\0" in value:
+        if _has_control_character(value.replace("\t", " ")):
             raise ValueError("Header values must not contain control characters.")
         self._dict[key.lower()] = value
 
